@@ -37,7 +37,8 @@ def main(argv):
                 results[pf] = {'applied': False}
                 bad += 1
                 continue
-            env = dict(os.environ, VERIF_REPO=wt, VERIF_SENSITIVITY='1', VERIF_MAX_REPORT='2')
+            env = dict(os.environ, VERIF_REPO=wt, VERIF_SENSITIVITY='1', VERIF_MAX_REPORT='2',
+                       VERIF_EVIDENCE_DIR=os.path.join(tmp, 'evidence'), VERIF_REPLAY_DIR=os.path.join(tmp, 'replays'))
             env.setdefault('VERIF_WALL', '60')
             p = subprocess.run([os.path.join(VERIF, 'vcheck'), prop, 'quick'], stdout=subprocess.PIPE, stderr=subprocess.STDOUT, text=True, env=env, cwd=VERIF)
             viol = [ln for ln in p.stdout.split('\n') if ln.startswith('VIOLATION ')]
@@ -58,9 +59,7 @@ def main(argv):
         finally:
             subprocess.call(['git', '-C', REPO, 'worktree', 'remove', '--force', wt], stdout=subprocess.DEVNULL, stderr=subprocess.DEVNULL)
             shutil.rmtree(tmp, ignore_errors=True)
-    # the evidence files were rewritten by runs against mutated trees: they do not describe /repo
     with open(os.path.join(mdir, 'results.json'), 'w') as fh:
         json.dump(results, fh, indent=1, sort_keys=True)
     print('sensitivity: %d mutants, %d not caught' % (len(patches), bad))
-    print('NOTE: evidence/*.json now describe runs against mutated trees; re-run the quick checks before committing evidence.')
     return 0 if bad == 0 else 1
